@@ -26,6 +26,18 @@ func (p *parseSUT) apply(f []string) string {
 		}
 		return strings.Join([]string{"ok", wire.Enc(sr.ResourceType), wire.Enc(sr.ResourceKind.String()), wire.Enc(sr.Name), wire.Enc(sr.Namespace),
 			wire.Enc(sr.ResourceName), wire.Enc(string(sr.Cluster)), "key=" + wire.Enc(sr.Key())}, " ")
+	case "tkgr":
+		// credentials.ToKubernetesGatewayResource(namespace, name)
+		return "ok " + wire.Enc(credentials.ToKubernetesGatewayResource(wire.Dec(f[1]), wire.Dec(f[2])))
+	case "krn":
+		// SecretResource.KubernetesResourceName() of the parsed name
+		sr, err := credentials.ParseResourceName(wire.Dec(f[1]), wire.Dec(f[2]), "", "")
+		if err != nil {
+			return "err"
+		}
+		return "ok " + wire.Enc(sr.KubernetesResourceName())
+	case "trn":
+		return "ok " + wire.Enc(credentials.ToResourceName(wire.Dec(f[1])))
 	}
 	return "bad-op"
 }
@@ -62,7 +74,16 @@ func genParse(seed uint64, n int, outp string) {
 		r := root.Fork()
 		out.Line("case", strconv.Itoa(c), "parse")
 		for i, k := 0, 1+r.Intn(5); i < k; i++ {
-			out.Line("prn", wire.Enc(genName(r)), wire.Enc(wire.Pick(r, nsUniverse)), wire.Enc(wire.Pick(r, clusters)), wire.Enc(wire.Pick(r, clusters)))
+			switch r.Intn(8) {
+			case 0:
+				out.Line("tkgr", wire.Enc(wire.Pick(r, nsUniverse)), wire.Enc(wire.Pick(r, append(append([]string{}, segs...), "builtin://", "builtin://x", "a/b", genName(r)))))
+			case 1:
+				out.Line("krn", wire.Enc(genName(r)), wire.Enc(wire.Pick(r, nsUniverse)))
+			case 2:
+				out.Line("trn", wire.Enc(wire.Pick(r, append(append([]string{}, segs...), "builtin://", "builtin://x", "invalid://y", genName(r), genName(r)))))
+			default:
+				out.Line("prn", wire.Enc(genName(r)), wire.Enc(wire.Pick(r, nsUniverse)), wire.Enc(wire.Pick(r, clusters)), wire.Enc(wire.Pick(r, clusters)))
+			}
 		}
 	}
 }
